@@ -75,8 +75,7 @@ func runDev(args []string) (int, error) {
 	return 0, nil
 }
 
-func runReplay(prop, file string) (int, error) { return 2, errNotImplemented }
-func runSelftest(fast bool) (int, error)       { return 0, nil }
+
 
 func init() {
 	devCmds["clean1"] = func(c *CheckCtx) error {
